@@ -52,7 +52,7 @@ func TestC13(t *testing.T) {
 		}
 		svcs = append(svcs, s)
 	}
-	rcheck(t, "routes", V.N(1500, 20000), func(rt *rapid.T) {
+	rcheck(t, "routes", V.N(3000, 20000), func(rt *rapid.T) {
 		vi := rapid.IntRange(0, len(svcs)-1).Draw(rt, "instance")
 		s := svcs[vi]
 		iname := fmt.Sprintf("keep=%q env=%q", variants[vi].Keep, variants[vi].KeepEnv)
